@@ -28,11 +28,26 @@ static inline _Bool c_logical_witness_hits(uint64_t imm, unsigned width) {
   /* completeness: any architecturally valid (N,imms,immr) whose mask equals imm => accepted */ \
   __CPROVER_ensures(c_logical_witness_hits(__CPROVER_old(imm), __CPROVER_old(width)) ==> __CPROVER_return_value)
 
+/* is_logical_imm is encode_logical_imm with the result record thrown away. Its unit is modular: encode_logical_imm is replaced by the
+ * contract above (proved in c17.encode_logical_imm) extended by a ghost record of the call, and is_logical_imm must return exactly
+ * what that one call returned for exactly its own arguments - acceptance and rejection are then both exact by the callee's contract.
+ * (The first version of this contract only had the completeness direction and missed seed C17-02.) */
+#ifdef VERIF_UNIT_IS_LOGICAL_IMM
+unsigned g_enc_calls; uint64_t g_enc_imm; unsigned g_enc_width; _Bool g_enc_ret;
+#undef CONTRACT_arm_Utils_encode_logical_imm
+#define CONTRACT_arm_Utils_encode_logical_imm \
+  __CPROVER_requires(width == 32 || width == 64) \
+  __CPROVER_assigns(*out._val, g_enc_calls, g_enc_imm, g_enc_width, g_enc_ret) \
+  __CPROVER_ensures(__CPROVER_return_value ==> c_logical_sound(__CPROVER_old(imm), __CPROVER_old(width), out._val)) \
+  __CPROVER_ensures(c_logical_witness_hits(__CPROVER_old(imm), __CPROVER_old(width)) ==> __CPROVER_return_value) \
+  __CPROVER_ensures(g_enc_calls == __CPROVER_old(g_enc_calls) + 1 && g_enc_imm == __CPROVER_old(imm) && g_enc_width == __CPROVER_old(width) && g_enc_ret == __CPROVER_return_value)
+#define C_ENC_INIT() (g_enc_calls = 0)
 #define CONTRACT_arm_Utils_is_logical_imm \
   __CPROVER_requires(width == 32 || width == 64) \
-  __CPROVER_assigns() \
-  __CPROVER_ensures(c_logical_witness_hits(imm, width) ==> __CPROVER_return_value) \
-  __CPROVER_ensures(!__CPROVER_return_value ==> !c_logical_witness_hits(imm, width))
+  __CPROVER_assigns(g_enc_calls, g_enc_imm, g_enc_width, g_enc_ret) \
+  __CPROVER_ensures(g_enc_calls == 1 && g_enc_imm == imm && g_enc_width == width && __CPROVER_return_value == g_enc_ret) \
+  __CPROVER_ensures(c_logical_witness_hits(imm, width) ==> __CPROVER_return_value)
+#endif
 
 #define CONTRACT_arm_Utils_is_add_sub_imm \
   __CPROVER_assigns() \
@@ -94,4 +109,7 @@ static inline _Bool c_mov_seq_ok(const uint32_t* out, unsigned count, unsigned r
   __CPROVER_ensures((__CPROVER_return_value && size_field == 2) ==> (((out._val->h << 1) | (out._val->lm >> 1)) == element_index && (out._val->lm & 1) == 0 && out._val->max_rm_id == 31))
 
 unsigned nondet_unsigned(void);
-#define VERIF_GHOST_INIT() (g_N = nondet_unsigned(), g_S = nondet_unsigned(), g_R = nondet_unsigned(), g_imm8 = nondet_unsigned())
+#ifndef C_ENC_INIT
+#define C_ENC_INIT() ((void)0)
+#endif
+#define VERIF_GHOST_INIT() (g_N = nondet_unsigned(), g_S = nondet_unsigned(), g_R = nondet_unsigned(), g_imm8 = nondet_unsigned(), C_ENC_INIT())
